@@ -290,6 +290,8 @@ type connSpec struct {
 	// Pipelined (server role): client bytes that arrive together with the handshake request and are
 	// therefore already buffered in the hijacked bufio.Reader when Accept takes the connection over.
 	Pipelined []byte
+	// ReaderSize (server role): size of the bufio.Reader the fake Hijacker hands over (0 = 4096)
+	ReaderSize int
 	// DialCtx / DialTimeout (client role): the context Dial runs under (nil = Background) and the http.Client's Timeout
 	DialCtx     context.Context `json:"-"`
 	DialTimeout time.Duration
@@ -323,7 +325,7 @@ func (e *env) open(spec connSpec) (*libConn, error) {
 			lc.Agreed = wsx.ParseAgreed([]string{spec.Ext})
 		}
 	} else {
-		sv, err := wsx.Accept(wsx.ServerCfg{Mode: spec.Mode, Threshold: spec.Threshold, Offer: spec.Ext, Pipelined: spec.Pipelined})
+		sv, err := wsx.Accept(wsx.ServerCfg{Mode: spec.Mode, Threshold: spec.Threshold, Offer: spec.Ext, Pipelined: spec.Pipelined, ReaderSize: spec.ReaderSize})
 		e.track(sv.Conn, sv.Peer, sv.Lib)
 		if err != nil {
 			return nil, err
